@@ -6,7 +6,8 @@ import sprop, gen_tp, oracle_tp, scen
 FILES = ['theories/Base.v', 'theories/gen/Codec.v', 'theories/gen/Tp21Gen.v', 'theories/gen/CaGen.v', 'theories/gen/Tp22Gen.v', 'theories/CodecGlue.v',
          'theories/Model21.v', 'theories/Model22.v', 'theories/Replay21.v', 'theories/Replay22.v', 'proofs/CodecProofs.v', 'proofs/Flat.v',
          'proofs/MpgProofs.v', 'proofs/PoolProofs.v', 'proofs/Tp21Seg.v', 'proofs/Tp21Resp.v', 'proofs/TimeoutProofs.v', 'proofs/Tp22Proofs.v', 'proofs/Tp22Resp.v', 'proofs/ConserveProofs.v', 'proofs/FrameLocal22.v',
-         'theories/SkelDefs.v', 'theories/FlowDefs.v', 'theories/gen/SkelGen.v', 'proofs/FlowProofs.v', 'proofs/OrderProofs.v']
+         'theories/SkelDefs.v', 'theories/FlowDefs.v', 'theories/gen/SkelGen.v', 'proofs/FlowProofs.v', 'proofs/OrderProofs.v',
+         'proofs/Net21.v', 'proofs/Net22.v']
 
 
 def gen_capacity(rng):
@@ -71,8 +72,22 @@ def run(out, tier, rng, work):
                 'residues mod 60 in 61..20000, window pairs from {1,2,3,7,8,127,254,255,random}, latencies in (0, 5 ms]; every fifth scenario '
                 'starts 7..11 RTS/CTS and 3..6 BAM sessions at one instant (capacity 8 + 4); oracle: exactly-once delivery, refusal exactly '
                 'beyond capacity and without frames; every handler log replayed on the Coq model (Model22); non-trivial = FD.TP frames on the bus'
-                ' Cyclic application timers on the ECUs in a quarter of the scenarios.')
+                ' Cyclic application timers on the ECUs in a quarter of the scenarios. Closed-loop correspondence of the FD network model (Net22.v) against two real FD stacks.')
     out.assumptions = ['A1-A6 of DESIGN.md section 3', 'closed-loop FD role theorems are not proved: delivery is covered by correspondence + oracle (testing); proved: segmentation, capacity, allocation freshness, pool invariant steps, inbound neutrality']
     sprop.run_stateful(out, 'C02', tier, rng, work, FILES, gen, oracle, 100, 1500, nontrivial,
                        sample=lambda sc, res: dict(capacity=sc.get('capacity', False), sends=[(e['a'][1], e['a'][2], e['a'][5]['len']) for e in sc['script'] if e['op'] == 'send'][:6],
                                                    returns=[r for ev, r in res.returns][:14]))
+    # closed-loop correspondence: the FD network model (proofs/Net22.v: two model nodes on one bus) against two real FD stacks
+    import netcorr
+    n, mism, errors, bad = netcorr.run(work, rng, 10 if tier == 'quick' else 120, big=(tier != 'quick'), tag='c02net', only='fd')
+    out.extra['closed_loop_cases'] = n
+    out.traces_validated += n
+    for c, sc, what in bad[:1]:
+        out.violation(what, dict(kind='closed-loop-not-delivered'),
+                      dict(broke='oracle', scenario=sc, violation=dict(kind='closed-loop-not-delivered', what=what), scenario_name='closed-loop',
+                           how='./check replay <this file> re-runs the scenario on /repo and prints the oracle verdict'))
+    for name, o in errors[:3]:
+        out.broken.append('closed-loop correspondence %s did not evaluate: %s' % (name, o[-200:].replace('\n', ' ')))
+    for c, i, m, im in mism[:3]:
+        out.broken.append('closed-loop correspondence: FD network model and two real stacks differ (case %s) at observation %s: model %s / impl %s'
+                          % (c, i, str(m)[:120], str(im)[:120]))
